@@ -119,4 +119,75 @@ theorem mfa_index (ω : S) (n1 n2 : Nat) (hω : ω ^ (n1 * n2) = 1) (x : Nat →
 
 end ring
 
+/-! ### the column pass and the row pass of the matrix Fourier transform, on the model's own pieces -/
+
+theorem length_revPerm (D : Nat) (c : List Int) : (revPerm D c).length = c.length := by simp [revPerm]
+
+theorem el_revPerm (D : Nat) (c : List Int) (hc : c.length = 2 ^ D) (j : Nat) (hj : j < 2 ^ D) :
+    el (revPerm D c) j = el c (rev D j) := by
+  unfold revPerm
+  rw [el_range_map _ _ _ (by rw [hc]; exact hj), revbin_rev D j hj]
+
+theorem el_getCol (xs : List Int) (off is cnt j : Nat) (hj : j < cnt) : el (getCol xs off is cnt) j = el xs (off + j * is) :=
+  el_range_map _ _ _ hj
+
+/-- column pass (fft_mfa_trunc_sqrt2.c:202-207): entry j of column i after mpir_fft_radix2_twiddle and the revbin swaps -/
+def mfaCol (e2 w n1 : Nat) (xs : List Int) (i : Nat) : List Int :=
+  revPerm (e2 + 1) (fft_radix2_twiddle e2 (w * n1) w 0 i 1 (getCol xs i n1 (2 ^ (e2 + 1))))
+
+/-- row pass (fft_mfa_trunc_sqrt2.c:211-219): row j after mpir_fft_radix2 and the revbin swaps -/
+def mfaRow (e1 e2 w : Nat) (xs : List Int) (j : Nat) : List Int :=
+  revPerm (e1 + 1) (fft_radix2 e1 (w * 2 ^ (e2 + 1))
+    ((List.range (2 ^ (e1 + 1))).map fun i => el (mfaCol e2 w (2 ^ (e1 + 1)) xs i) j))
+
+section ring
+variable {S : Type} [CommRing S] (f : ℤ →+* S)
+
+theorem mfaCol_val (e1 e2 w : Nat) (xs : List Int) (hz : f 2 ^ (2 ^ (e1 + e2 + 1) * w) = -1) (i j : Nat)
+    (hj : j < 2 ^ (e2 + 1)) :
+    f (el (mfaCol e2 w (2 ^ (e1 + 1)) xs i) j) =
+      (∑ m ∈ range (2 ^ (e2 + 1)), f (el xs (i + m * 2 ^ (e1 + 1))) * ((f 2 ^ w) ^ 2 ^ (e1 + 1)) ^ (j * m)) *
+        (f 2 ^ w) ^ (j * i) := by
+  have hz' : f 2 ^ (2 ^ e2 * (w * 2 ^ (e1 + 1))) = -1 := by
+    rw [← hz]; congr 1; rw [pow_succ, pow_succ, pow_add]; ring
+  unfold mfaCol
+  rw [el_revPerm _ _ (length_fft_radix2_twiddle _ _ _ _ _ _ _) j hj,
+    fft_radix2_twiddle_dft f e2 _ w 0 i 1 _ hz' _ (rev_lt _ _), rev_rev _ _ hj]
+  congr 1
+  · apply sum_congr rfl; intro m hm
+    rw [el_getCol _ _ _ _ _ (mem_range.mp hm)]
+    congr 1
+    simp only [← pow_mul]
+  · rw [← pow_mul]; congr 1; ring
+
+/-- the two passes leave in row j, column t the DFT value of frequency j + n2·t — the value the plain radix-2
+    transform of the same n1·n2 coefficients leaves in position rev(j + n2·t) -/
+theorem mfa_passes (e1 e2 w : Nat) (xs : List Int) (hz : f 2 ^ (2 ^ (e1 + e2 + 1) * w) = -1) (j t : Nat)
+    (hj : j < 2 ^ (e2 + 1)) (ht : t < 2 ^ (e1 + 1)) :
+    f (el (mfaRow e1 e2 w xs j) t) =
+      f (el (fft_radix2 (e1 + e2 + 1) w xs) (rev (e1 + e2 + 1 + 1) (j + 2 ^ (e2 + 1) * t))) := by
+  have hN : 2 ^ (e1 + 1) * 2 ^ (e2 + 1) = 2 ^ (e1 + e2 + 1 + 1) := by rw [← pow_add]; congr 1; ring
+  have hlt : j + 2 ^ (e2 + 1) * t < 2 ^ (e1 + e2 + 1 + 1) := by
+    rw [← hN]
+    calc j + 2 ^ (e2 + 1) * t < 2 ^ (e2 + 1) + 2 ^ (e2 + 1) * t := by omega
+      _ = 2 ^ (e2 + 1) * (t + 1) := by ring
+      _ ≤ 2 ^ (e2 + 1) * 2 ^ (e1 + 1) := Nat.mul_le_mul_left _ ht
+      _ = 2 ^ (e1 + 1) * 2 ^ (e2 + 1) := by ring
+  have hz1 : f 2 ^ (2 ^ e1 * (w * 2 ^ (e2 + 1))) = -1 := by
+    rw [← hz]; congr 1; rw [pow_succ, pow_succ, pow_add]; ring
+  have hω : (f 2 ^ w) ^ (2 ^ (e1 + 1) * 2 ^ (e2 + 1)) = 1 := by
+    have : (f 2 ^ w) ^ (2 ^ (e1 + 1) * 2 ^ (e2 + 1)) = (f 2 ^ (2 ^ (e1 + e2 + 1) * w)) ^ 2 := by
+      rw [← pow_mul, ← pow_mul]; congr 1; rw [hN, pow_succ]; ring
+    rw [this, hz]; norm_num
+  rw [fft_radix2_dft f _ w xs hz _ (rev_lt _ _), rev_rev _ _ hlt]
+  unfold mfaRow
+  rw [el_revPerm _ _ (length_fft_radix2 _ _ _) t ht, fft_radix2_dft f e1 _ _ hz1 _ (rev_lt _ _), rev_rev _ _ ht]
+  rw [← hN, ← mfa_index (f 2 ^ w) (2 ^ (e1 + 1)) (2 ^ (e2 + 1)) hω (fun k => f (el xs k)) j t]
+  apply sum_congr rfl; intro i hi
+  rw [el_range_map _ _ _ (mem_range.mp hi), mfaCol_val f e1 e2 w xs hz i j hj]
+  congr 1
+  simp only [← pow_mul]
+
+end ring
+
 end Mpir.FftX
